@@ -158,6 +158,9 @@ pub mod tstd {
     pub broadcast axiom fn axiom_slice_contains_usize(s: Seq<usize>, x: usize)
         ensures #[trigger] slice_contains(s, x) == s.contains(x);
 
+    pub broadcast group group_tstd {
+        axiom_slice_contains_i32, axiom_slice_contains_usize, axiom_vec_into_iter_seq, axiom_cmp_min_i32,
+    }
     pub uninterp spec fn into_iter_seq<T, I>(i: I) -> Seq<T>;
     pub assume_specification<T, A: Allocator, I: IntoIterator<Item = T>>[<Vec<T, A> as Extend<T>>::extend::<I>](v: &mut Vec<T, A>, iter: I)
         ensures final(v)@ == old(v)@ + into_iter_seq::<T, I>(iter);
@@ -172,6 +175,17 @@ pub mod tstd {
     pub assume_specification[i32::rem_euclid](x: i32, m: i32) -> (r: i32)
         requires m != 0, !(x == i32::MIN && m == -1),
         ensures r == (x as int) % (m as int);
+    /// std: wrapping_div / wrapping_rem panic if rhs is zero; (MIN, -1) wraps to MIN / 0
+    pub assume_specification[i32::wrapping_div](x: i32, y: i32) -> (r: i32)
+        requires y != 0,
+        ensures r == (if x == i32::MIN && y == -1 { i32::MIN } else { trunc_div(x as int, y as int) as i32 }),
+            !(x == i32::MIN && y == -1) ==> in_i32(trunc_div(x as int, y as int));
+    pub assume_specification[i32::wrapping_rem](x: i32, y: i32) -> (r: i32)
+        requires y != 0,
+        ensures r == (if x == i32::MIN && y == -1 { 0i32 } else { trunc_rem(x as int, y as int) as i32 }),
+            in_i32(trunc_rem(x as int, y as int));
+    pub assume_specification[i32::wrapping_abs](x: i32) -> (r: i32)
+        ensures r == (if x == i32::MIN { i32::MIN } else if x < 0 { (-(x as int)) as i32 } else { x });
     pub uninterp spec fn cmp_min_spec<T>(a: T, b: T) -> T;
     pub assume_specification<T: Ord>[core::cmp::min::<T>](a: T, b: T) -> (r: T)
         ensures r == cmp_min_spec(a, b);
@@ -207,8 +221,69 @@ pub mod tstd {
 
 pub mod spec {
     #[allow(unused_imports)] use vstd::prelude::*;
-    pub uninterp spec fn f32_lt(a: f32, b: f32) -> bool;
-    pub uninterp spec fn f32_le(a: f32, b: f32) -> bool;
+    #[allow(unused_imports)] use vstd::std_specs::ops::*;
+    #[allow(unused_imports)] use vstd::std_specs::cmp::*;
+
+    // ---- sequence vocabulary for stack contracts (bottom first, top = last) ----
+    /// the stack without its n top-most items
+    pub open spec fn drop_n<T>(s: Seq<T>, n: int) -> Seq<T> { s.subrange(0, s.len() - n) }
+    /// item at position i counted from the top (0 = top)
+    pub open spec fn top<T>(s: Seq<T>, i: int) -> T { s[s.len() - 1 - i] }
+    /// b is a with at most `need` items removed from the top and nothing added
+    pub open spec fn shrunk<T>(a: Seq<T>, b: Seq<T>, need: int) -> bool {
+        b.len() <= a.len() && a.len() - need <= b.len() && b =~= a.subrange(0, b.len() as int)
+    }
+    /// index operand clamped into 0..n-1 (0 when n == 0): "clamped into the valid range"
+    pub open spec fn clamp_idx(i: int, n: int) -> int {
+        if n <= 0 { 0 } else if i < 0 { 0 } else if i > n - 1 { n - 1 } else { i }
+    }
+    /// YANK: item at position k from the top moves to the top
+    pub open spec fn yank_seq<T>(s: Seq<T>, k: int) -> Seq<T> {
+        if 0 < k < s.len() { s.remove(s.len() - 1 - k).push(s[s.len() - 1 - k]) } else { s }
+    }
+    /// SHOVE: the top item moves to position k from the top
+    pub open spec fn shove_seq<T>(s: Seq<T>, k: int) -> Seq<T> {
+        if 0 < k < s.len() { s.drop_last().insert(s.len() - 1 - k, s.last()) } else { s }
+    }
+    /// Rust's integer division / remainder (truncated toward zero), for b != 0
+    pub open spec fn trunc_div(a: int, b: int) -> int {
+        if (a >= 0) == (b > 0) || a % b == 0 { a / b } else { a / b + (if b > 0 { 1int } else { -1int }) }
+    }
+    pub open spec fn trunc_rem(a: int, b: int) -> int { a - b * trunc_div(a, b) }
+    pub open spec fn in_i32(x: int) -> bool { i32::MIN <= x <= i32::MAX }
+    /// two's complement wrap-around of a mathematical integer into i32
+    pub open spec fn wrap32(x: int) -> i32 {
+        let m = x % 0x1_0000_0000;
+        if m >= 0x8000_0000 { (m - 0x1_0000_0000) as i32 } else { m as i32 }
+    }
+
+    // ---- A-float: f32 arithmetic and comparisons are total, deterministic functions of their operands.
+    // Nothing about the VALUES is assumed (add_spec, partial_cmp_spec, eq_spec stay uninterpreted for f32).
+    pub broadcast axiom fn ax_f32_add_req(a: f32, b: f32) ensures #[trigger] a.add_req(b);
+    pub broadcast axiom fn ax_f32_sub_req(a: f32, b: f32) ensures #[trigger] a.sub_req(b);
+    pub broadcast axiom fn ax_f32_mul_req(a: f32, b: f32) ensures #[trigger] a.mul_req(b);
+    pub broadcast axiom fn ax_f32_div_req(a: f32, b: f32) ensures #[trigger] a.div_req(b);
+    pub broadcast axiom fn ax_f32_rem_req(a: f32, b: f32) ensures #[trigger] a.rem_req(b);
+    #[verifier::allow(broadcast_without_trigger)]
+    pub broadcast axiom fn ax_f32_obeys()
+        ensures
+            <f32 as AddSpec>::obeys_add_spec(), <f32 as SubSpec>::obeys_sub_spec(),
+            <f32 as MulSpec>::obeys_mul_spec(), <f32 as DivSpec>::obeys_div_spec(),
+            <f32 as RemSpec>::obeys_rem_spec(),
+            <f32 as PartialOrdSpec>::obeys_partial_cmp_spec(), <f32 as PartialEqSpec>::obeys_eq_spec();
+    pub broadcast group group_float_total {
+        ax_f32_add_req, ax_f32_sub_req, ax_f32_mul_req, ax_f32_div_req, ax_f32_rem_req, ax_f32_obeys,
+    }
+    pub open spec fn f32_add(a: f32, b: f32) -> f32 { a.add_spec(b) }
+    pub open spec fn f32_sub(a: f32, b: f32) -> f32 { a.sub_spec(b) }
+    pub open spec fn f32_mul(a: f32, b: f32) -> f32 { a.mul_spec(b) }
+    pub open spec fn f32_div(a: f32, b: f32) -> f32 { a.div_spec(b) }
+    pub open spec fn f32_rem(a: f32, b: f32) -> f32 { a.rem_spec(b) }
+    /// the IEEE comparisons the exec operators compute, as (uninterpreted) spec functions
+    pub open spec fn f32_lt(a: f32, b: f32) -> bool { a.partial_cmp_spec(&b) == Some(core::cmp::Ordering::Less) }
+    pub open spec fn f32_gt(a: f32, b: f32) -> bool { a.partial_cmp_spec(&b) == Some(core::cmp::Ordering::Greater) }
+    pub open spec fn f32_le(a: f32, b: f32) -> bool { a.partial_cmp_spec(&b) == Some(core::cmp::Ordering::Less) || a.partial_cmp_spec(&b) == Some(core::cmp::Ordering::Equal) }
+    pub open spec fn f32_eq(a: f32, b: f32) -> bool { a.eq_spec(&b) }
     pub uninterp spec fn f_sin(x: f32) -> f32;
     pub uninterp spec fn f_cos(x: f32) -> f32;
     pub uninterp spec fn f_tan(x: f32) -> f32;
